@@ -66,7 +66,9 @@ TEXTS = ['a', 'hello world', '', "3'", '30"', "'quoted'", '"M 31" field',
 LABELS = ['lab', 'my label', 'A-1', 'x y z', "3'", '30"', "it's", 'a, b',
           ' lead', 'trail ', 'a]b', 'a [b]', 'k=v', '"M 31" field', 'über',
           'hash # tag', 'form\x0cfeed', 'NGC 1\u2028field', 'x\x85y',
-          'gs\x1dz', 'p\u2029q']
+          'gs\x1dz', 'p\u2029q',
+          # braces (LaTeX labels): the writer must not read them as a format
+          '$\\alpha_{1}$', '{a b}', '{0}', 'x}{y']
 
 
 def crtf_meta():
